@@ -74,7 +74,7 @@ def _is_product(rho: np.ndarray, dim: int | list[int] = None) -> list[int, bool]
         dim = np.array(dim)
 
     # Allow the user to enter a single number for dim.
-    if isinstance(dim, float):
+    if isinstance(dim, (int, float)):
         num_sys = 1
     else:
         num_sys = len(dim)
